@@ -348,10 +348,6 @@ func GReplay(args []string) {
 			for v := 0; v < *variants; v++ {
 				rng := rand.New(rand.NewSource(int64(h) ^ (*seed * 1000003) ^ int64(v)*7919))
 				input, cuts := gconcretise(&c, rng)
-				if seenIn[c.Mode+string(input)] {
-					continue
-				}
-				seenIn[c.Mode+string(input)] = true
 				if inw != nil && (*inVariants == 0 || v < *inVariants) && (*inEvery <= 1 || ghash(input)%uint64(*inEvery) == 0) && !seenIn["*"+string(input)] {
 					seenIn["*"+string(input)] = true
 					b, _ := json.Marshal(map[string]interface{}{"input": tr.Ints(input)})
@@ -363,6 +359,10 @@ func GReplay(args []string) {
 						inbuf.Reset()
 					}
 				}
+				if seenIn[c.Mode+string(input)] {
+					continue
+				}
+				seenIn[c.Mode+string(input)] = true
 				d := &gdoc{&c, input, cuts}
 				tid++
 				w.Begin(tid)
